@@ -1052,12 +1052,7 @@ theorem transact_ok (pos : Position α) (tx : Txn α) (hc : pos.clock ≤ tx.tim
   simp only [Position.transact]
   split
   · exact ⟨rfl, hc⟩
-  · have hc' : (if 0 < tx.qty then pos.transactBuy (ofInt tx.qty) tx.price tx.commission
-        else pos.transactSell (ofInt (-tx.qty)) tx.price tx.commission).clock ≤ tx.time := by
-      split
-      · simpa [Position.transactBuy] using hc
-      · simpa [Position.transactSell] using hc
-    rw [updatePrice_ok _ _ _ hc' hpr]
+  · rw [updatePrice_ok _ _ _ hc hpr]
     exact ⟨rfl, le_refl _⟩
 
 theorem openFrom_clock (tx : Txn α) : (Position.openFrom tx).clock = tx.time := by
